@@ -220,6 +220,24 @@ CLAIMED = {
              "templates is end-to-end only.",
         design_ref="§5 C11",
     ),
+    "C12": dict(
+        category="proof",
+        technique="Lean 4 rule-level theorems about the lexer model's whitespace handling + a segment-level reference of the "
+                  "documented rules (Lean) compared with real renders of exhaustive and random skeletons",
+        text="Theorems (Props/C12.lean): '-' on the left keeps exactly the text without its whitespace suffix (minus_left); '+' "
+             "disables trimming (plus_left, plus_right); without lstrip_blocks nothing is removed before a tag; variable tags "
+             "are untouched by the automatic options (variable_untouched, variable_end_keeps_newline); lstrip_blocks removes "
+             "only the blanks after the last line break and only when the tag is first on its line (lstrip_rule, "
+             "splitLastNl_tail_no_nl); trim_blocks consumes exactly one following newline after a sign-less tag end "
+             "(trim_rule); '-' on the right removes exactly the following whitespace (minus_right); with C39's "
+             "removed_is_whitespace/lex_lossless non-whitespace is never removed from any source. Tie: text-tag-text triples "
+             "with every sign combination x 12x12 whitespace runs (exhaustive in thorough), raw blocks with signs on four "
+             "sides, random skeletons, x 4 trim/lstrip settings x 3 delimiter sets x 3 ways of building the environment.",
+        note="Trusted: Lean kernel; lexer model (differentially validated, C39); the reference Spec/Trim.lean is tied to the "
+             "real renderer by correspondence; that the lexer model equals the reference on every skeleton is tested, not "
+             "proved (partial with respect to DESIGN's lex_skeleton).",
+        design_ref="§5 C12",
+    ),
 }
 
 NOT_YET = "not yet decided by the Lean model in this revision (machinery for it is not built; see DESIGN.md §8 build order)"
